@@ -352,39 +352,46 @@ PROMISED = ['failed-init: construction raises', 'failed-init: not iterable', 'fa
 
 
 def _cover(case, obs):
+  """classifies what a run exercised from the CASE and the TRACE of synchronisation operations only (never from the
+  outcomes, which a broken implementation changes)"""
   ths = case.get('threads')
   if not ths or not any(_bad_build(p) for p in ths) or 'trace' not in obs:
     return
+  w = oracle(case, obs)
+  if w is not None and finding(case, w) is None:
+    _COV['(runs that failed the oracle)'] += 1
   trace = obs['trace']
-  first, last, ops = {}, {}, collections.defaultdict(list)
+  first, last, ops, where = {}, {}, collections.defaultdict(list), collections.defaultdict(dict)
   for k, (tid, lbl) in enumerate(trace):
     first.setdefault(tid, k)
     last[tid] = k
     ops[tid].append(lbl)
+    where[tid].setdefault(lbl, k)
   installs = [k for k, (tid, lbl) in enumerate(trace) if lbl == 'thread_start thread']
+  shutdowns = [where[j + 1]['acquire shut'] for j, q in enumerate(ths)
+               if q['kind'] == 'shutdown' and 'acquire shut' in where[j + 1]]
   for i, p in enumerate(ths):
     if not _bad_build(p):
       continue
     tid = i + 1
-    o = obs['threads'][i]
-    out = o.get('outcome') or {}
-    if not o.get('done'):
+    if tid not in first:
       continue
-    if out.get('raise') == 'TimeoutError':
+    decided = where[tid].get('acquire gen', first[tid])     # where the handler sees the shutdown flag for the last time
+    if any(k < decided for k in shutdowns):
       _COV['failed-init: shutdown already requested'] += 1
       continue
-    if out.get('code') != 2:
-      continue
+    if 'release gen' not in ops[tid]:
+      continue                                               # cut short / still inside
     _COV['failed-init: construction raises' if p['build'] == 'raise' else 'failed-init: not iterable'] += 1
     if p['kind'] == 'client':
       _COV['failed-init: issued by a client loop'] += 1
     stopped = any('#' in l for l in ops[tid])          # it ran maybe_stop on a live generator's queue
     if stopped or 'join thread' in ops[tid]:
       _COV['failed-init: waits for the generator lock / in a locked stop'] += 1
-    later = [j for j, q in enumerate(ths) if q['kind'] == 'next' and first.get(j + 1, -1) > last[tid]
-             and obs['threads'][j].get('done')]
+    end = where[tid]['release gen']
+    later = [j for j, q in enumerate(ths) if q['kind'] == 'next' and first.get(j + 1, -1) > end]
     if later:
-      if not any(k < last[tid] for k in installs):
+      if not any(k < end for k in installs):
         _COV['failed-init: a request is issued after it, no generator was ever installed'] += 1
       if stopped:
         _COV['failed-init: it stopped a live generator, a request is issued after it'] += 1
@@ -423,6 +430,19 @@ def neighbours(case, rng):
 
 
 def shrink(case, fails):
+  def bad(c):
+    """a genuine failure of the candidate (a schedule that no longer fits the smaller case is not one)"""
+    w = fails(c)
+    return w is not None and not w.startswith('run did not finish')
+
+  def variants(c):
+    """the candidate itself; with a recorded schedule also under a few fresh schedules (the recorded choices do not
+    fit a case with fewer threads / shorter generators)"""
+    yield c
+    if c.get('sched', {}).get('kind') == 'replay':
+      for k in range(12):
+        yield dict(c, sched=dict(kind='random', seed=1000 + k))
+
   cur = case
   changed = True
   while changed:
@@ -438,8 +458,9 @@ def shrink(case, fails):
         if 'src' in p:
           p['src'] = [v if v == 'fail' else 100 * j + (v % 100) for v in p['src']]
           p['ret'] = 900 + j
-      if fails(c):
-        cur, changed = c, True
+      hit = next((v for v in variants(c) if bad(v)), None)
+      if hit is not None:
+        cur, changed = hit, True
         break
     if changed:
       continue
@@ -447,8 +468,9 @@ def shrink(case, fails):
       if p.get('src'):
         c = copy.deepcopy(cur)
         c['threads'][i]['src'].pop()
-        if fails(c):
-          cur, changed = c, True
+        hit = next((v for v in variants(c) if bad(v)), None)
+        if hit is not None:
+          cur, changed = hit, True
           break
   return cur
 
@@ -588,7 +610,8 @@ def extra(ctx):
   for k in PROMISED:
     ctx.count('exercised', k, _COV.get(k, 0))
   missing = [k for k in PROMISED if not _COV.get(k)]
-  if missing:
+  # enforced on runs whose failed-init cases all pass the oracle (a failing one ends in a verdict, not here)
+  if missing and not _COV.get('(runs that failed the oracle)'):
     raise InfraError(f'the runs did not exercise promised arms: {missing}')
   _explore_stage(ctx)
   logging.disable(logging.CRITICAL)
